@@ -313,6 +313,8 @@ def recognise_cursor_merge(fi: FuncInfo, rule: str) -> Tuple[Optional[MergeRoles
         for x in ast.walk(ast.Module(body=[n for n in fi.node.body], type_ignores=[])):
             if isinstance(x, ast.Assign) and len(x.targets) == 1 and isinstance(x.targets[0], ast.Name) \
                     and x.targets[0].id == cur:
+                if any(isinstance(y, ast.Name) and y.id == cur for y in ast.walk(x.value)):
+                    continue        # an increment spelled `c = c + 1` (checked by the branch rules)
                 try:
                     vals.append(ast.literal_eval(x.value))
                 except Exception:
